@@ -1616,7 +1616,9 @@ func IsFileModified(filepath string) (bool, error) {
 		"--porcelain",
 		"-z", // entries are NUL-terminated and never quoted, whatever the file name contains
 		"--", // separator in case filename ambiguous
-		filepath,
+		// the path is relative to the root of the working tree, also
+		// when the command runs in a subdirectory
+		":(top,literal)" + filepath,
 	}
 	cmd, err := git(args...)
 	if err != nil {
